@@ -12,6 +12,9 @@
 //	                   frame, every truncation offset, delete/duplicate/swap/replay, frames
 //	                   spliced from the other direction, from another session, from the
 //	                   handshake, garbage), pairs of faults in the thorough tier
+//	part 4 (part4.go)  long streams (600 frames; 66 000 in thorough): replay / run deletion /
+//	                   swap / opposite-direction splice at every distance, to catch a nonce
+//	                   counter that repeats with a period
 //	part 3 (part3.go)  the handshake against an attacker that relays, tampers, reflects,
 //	                   cross-wires, replays, substitutes keys and identities; both roles, both
 //	                   key orders, ed25519 and BLS identity keys
@@ -39,6 +42,7 @@ type spec struct {
 	P1   *p1spec `json:"p1,omitempty"`
 	P2   *p2spec `json:"p2,omitempty"`
 	P3   *p3spec `json:"p3,omitempty"`
+	P4   *p4spec `json:"p4,omitempty"`
 }
 
 func runSpec(sp spec) outcome {
@@ -49,6 +53,8 @@ func runSpec(sp spec) outcome {
 		return runPart2(*sp.P2)
 	case 3:
 		return runPart3(*sp.P3)
+	case 4:
+		return runPart4(*sp.P4)
 	}
 	return outcome{Key: "bad-spec"}
 }
@@ -61,6 +67,8 @@ func (sp spec) nontrivial() bool {
 		return true
 	case 3:
 		return sp.P3.Strat != "honest"
+	case 4:
+		return sp.P4.Op != "none"
 	}
 	return false
 }
@@ -73,6 +81,8 @@ func (sp spec) classKey() string {
 		return "2/" + sp.P2.kind()
 	case 3:
 		return "3/" + sp.P3.Strat
+	case 4:
+		return "4/" + sp.P4.kind()
 	}
 	return "?"
 }
@@ -111,6 +121,10 @@ func main() {
 	}
 	quick := r.Quick()
 	var specs []spec
+	for _, p := range part4Specs(quick) { // first: in the thorough tier it starts with the slowest scenarios
+		p := p
+		specs = append(specs, spec{Part: 4, P4: &p})
+	}
 	for _, p := range part3Specs(quick) {
 		p := p
 		specs = append(specs, spec{Part: 3, P3: &p})
@@ -133,7 +147,7 @@ func main() {
 		specs = keep
 		r.Exhaustive = false
 	}
-	stats := map[int]*partStat{1: newPartStat(), 2: newPartStat(), 3: newPartStat()}
+	stats := map[int]*partStat{1: newPartStat(), 2: newPartStat(), 3: newPartStat(), 4: newPartStat()}
 	planned := map[int]int{}
 	for _, sp := range specs {
 		planned[sp.Part]++
@@ -190,7 +204,7 @@ func main() {
 	// coverage
 	evals, nontriv := 0, 0
 	per := map[string]any{}
-	for _, pn := range []int{1, 2, 3} {
+	for _, pn := range []int{1, 2, 3, 4} {
 		st := stats[pn]
 		evals += st.scenarios
 		nontriv += len(st.nontriv)
@@ -225,8 +239,12 @@ func main() {
 	for ck, m := range stats[2].perClass {
 		p2[ck[2:]] = m
 	}
+	p4 := map[string]any{}
+	for ck, m := range stats[4].perClass {
+		p4[ck[2:]] = m
+	}
 	info := map[string]int{}
-	for _, pn := range []int{1, 2, 3} {
+	for _, pn := range []int{1, 2, 3, 4} {
 		for n, c := range stats[pn].notes {
 			info[n] += c
 		}
@@ -250,6 +268,9 @@ func main() {
 		"parts":               per,
 		"part3_outcomes_per_strategy":   p3,
 		"part2_outcomes_per_fault_kind": p2,
+		"part4_scenarios":     stats[4].scenarios,
+		"part4_distinct_outcomes":       len(stats[4].outcomes),
+		"part4_outcomes_per_fault_kind": p4,
 		"flaky_scenarios":     flaky,
 		"information":         info,
 	}
@@ -260,7 +281,7 @@ func main() {
 // that the evidence shows the scenario together with what happened.
 func sampleSpecs(specs []spec) []any {
 	var out []any
-	for _, want := range []string{"3/m-reflects-targets-signature-and-meta", "3/m-in-the-middle-relays-plaintext", "2/flip", "2/insert-opp", "2/trunc-mid-frame", "1/multi-frame:r<frame"} {
+	for _, want := range []string{"3/m-reflects-targets-signature-and-meta", "3/m-in-the-middle-relays-plaintext", "2/flip", "2/insert-opp", "4/replay", "1/multi-frame:r<frame"} {
 		var match []spec
 		for _, sp := range specs {
 			if sp.classKey() == want {
